@@ -77,6 +77,29 @@ theorem C19_kata_first : ∀ kv ∈ firstOccurrences katakanaTable, kv.1.length 
   have h : kataFirstOk katakanaTable (firstOccurrences katakanaTable) = true := by decide +kernel
   exact kataFirstOk_sound _ _ h
 
+/-- **"Maps every table kana"**: every character of every kana the romaji table can produce is a key of
+the katakana table (so katakana mode never leaves hiragana behind) … -/
+theorem C19_kata_covers_typed :
+    romanTable.all (fun kv => kv.2.all fun c => (assoc [c] katakanaTable).isSome) = true := by
+  decide +kernel
+
+/-- … hence the katakana of a typed kana is, character by character, its table katakana. -/
+theorem C19_kata_typed (kv : Str × Str) (h : kv ∈ romanTable) :
+    hiraToKata katakanaTable kv.2 = kv.2.flatMap fun c => (assoc [c] katakanaTable).getD [c] := by
+  have hall := List.all_eq_true.1 (List.all_eq_true.1 C19_kata_covers_typed kv h)
+  have gen : ∀ (l : Str), hiraToKata katakanaTable l = l.flatMap fun c => (assoc [c] katakanaTable).getD [c] := by
+    intro l
+    induction l with
+    | nil => rfl
+    | cons c t ih =>
+      have := hiraToKata_append katakanaTable [c] t
+      simp only [List.singleton_append] at this
+      rw [this, ih]
+      simp only [List.flatMap_cons]
+      congr 1
+      cases hc : assoc [c] katakanaTable <;> simp [hiraToKata, hc]
+  exact gen kv.2
+
 /-- Every character that is not a table key is left untouched, and conversion is per character. -/
 theorem C19_kata_other (c : Nat) (h : assoc [c] katakanaTable = none) :
     hiraToKata katakanaTable [c] = [c] := by
